@@ -98,7 +98,14 @@ func (_this *Context) SwapBuilder(builder Builder) Builder {
 
 func (_this *Context) ArtificiallyTerminate() {
 	for len(_this.builderStack) > 1 {
+		depth := len(_this.builderStack)
 		_this.CurrentBuilder.BuildArtificiallyEndContainer(_this)
+		// Builders that have nothing to end artificially (scalars, nodes,
+		// edges, ignored objects, ...) leave the stack untouched. Drop them,
+		// otherwise this loop never terminates.
+		for len(_this.builderStack) >= depth {
+			_this.UnstackBuilder()
+		}
 	}
 }
 
